@@ -279,6 +279,53 @@ Proof.
     apply Habs. apply in_map_iff. exists (k, r). split; [reflexivity | exact Hkr].
 Qed.
 
+(* ---- INSERT ... ON DUPLICATE KEY UPDATE ---- *)
+Theorem at_upsert_exact : forall pk all m u krs t t' b a,
+  NoDup m -> (forall k, In k m -> lookup k t <> None) ->
+  (forall k r, lookup k t = Some r -> key_of pk r = k) ->          (* rows are stored under their own key *)
+  (forall r, key_of pk (u r) = key_of pk r) ->                      (* the assignments leave the key columns alone *)
+  at_upsert pk all false m u krs t = Ok t' b a ->
+  b = img_of all t m
+  /\ a = img_of all t' (m ++ map fst krs)
+  /\ (forall k r, In k m -> lookup k t = Some r -> lookup k t' = Some (u r))
+  /\ (forall k r, In (k, r) krs -> lookup k t = None /\ ~ In k m /\ lookup k t' = Some r)
+  /\ (forall k, ~ In k m -> ~ In k (map fst krs) -> lookup k t' = lookup k t).
+Proof.
+  intros pk all m u krs t t' b a Hnd Hpres Hkeyed Hu H. unfold at_upsert in H.
+  destruct (apply_upd pk u m t) as [t1 |] eqn:Ha; [| discriminate].
+  destruct (insert_rows krs t1) as [t2 |] eqn:Hi; [| discriminate].
+  rewrite (img_of_present all t m Hpres) in H. inversion H; subst; clear H.
+  assert (Hip : inplaceb pk u m t = true).
+  { apply inplaceb_spec. intros k r Hin E. rewrite Hu. apply Hkeyed. exact E. }
+  destruct (apply_upd_inplace _ _ _ _ _ Hnd Hip Ha) as [H1 [H2 H3]].
+  destruct (insert_rows_spec _ _ _ Hi) as [Hnd2 [Habs [Hin Hout]]].
+  assert (Hdisj : forall k, In k m -> ~ In k (map fst krs)).
+  { intros k Hk Hkk. specialize (Habs k Hkk).
+    destruct (lookup k t) as [r |] eqn:E; [| apply (Hpres k Hk E)].
+    rewrite (H2 k r Hk E) in Habs. discriminate. }
+  split; [reflexivity |]. split; [reflexivity |]. split; [| split].
+  - intros k r Hk E. rewrite Hout by (apply Hdisj; exact Hk). apply H2; assumption.
+  - intros k r Hkr.
+    assert (Hkk : In k (map fst krs)) by (apply in_map_iff; exists (k, r); split; [reflexivity | exact Hkr]).
+    assert (Hnm : ~ In k m) by (intro Hk; apply (Hdisj k Hk Hkk)).
+    split; [| split; [exact Hnm | apply Hin; exact Hkr]].
+    rewrite <- (H1 k Hnm). apply Habs. exact Hkk.
+  - intros k Hnm Hnk. rewrite (Hout k Hnk). apply H1. exact Hnm.
+Qed.
+
+Theorem at_upsert_pk_reject : forall pk all m u krs t, exists e, at_upsert pk all true m u krs t = Err e.
+Proof. intros. exists EPkChanged. reflexivity. Qed.
+
+(* without the up-front refusal an assignment that changes a key is recorded as an update whose after image holds
+   another key than its before image: why checkDuplicateKeyUpdate must not miss a key column *)
+Theorem at_upsert_needs_pk_check :
+  exists pk all m u t t' b a, at_upsert pk all false m u [] t = Ok t' b a /\ map fst b <> [] /\ a = [].
+Proof.
+  exists [0], [0; 1], [[VInt 1%Z]], (fun r => match r with [VInt i; x] => [VInt (i + 100)%Z; x] | _ => r end),
+         [([VInt 1%Z], [VInt 1%Z; VNull])].
+  eexists. eexists. eexists. split; [vm_compute; reflexivity |]. split; [discriminate | reflexivity].
+Qed.
+
 (* key recovery fails to name the inserted row when the listed key value is NULL (or 0): the database generates
    the key, the executor looks the row up by NULL *)
 Theorem recover_refuted :
